@@ -337,6 +337,36 @@ pub fn run_kzg(ctx: &mut Ctx, args: &[String]) {
                        "events": ev.iter().map(|e| serde_json::from_str::<Value>(e).unwrap_or(json!(e))).collect::<Vec<_>>()})
             });
         }
+        "capacity" => {
+            // capacity <c> <deg>: a circuit with exactly c constraints against setup(deg): outcome of
+            // direct compilation and of the compressed route (replay of capacity counterexamples)
+            let (cn, deg) = (p(1), p(2));
+            use dusk_plonk::prelude::{Circuit, Compiler, Composer, Constraint, Error};
+            #[derive(Clone, Default)]
+            struct Adds(usize);
+            impl Circuit for Adds {
+                fn circuit(&self, c: &mut Composer) -> Result<(), Error> {
+                    let a = c.append_witness(BlsScalar::from(3u64));
+                    let mut acc = a;
+                    for _ in 0..self.0 {
+                        acc = c.gate_add(Constraint::new().left(1).right(1).a(acc).b(a));
+                    }
+                    Ok(())
+                }
+            }
+            let circuit = Adds(cn.saturating_sub(4));
+            let mut rng = crate::gadgets::ReplayRng(11);
+            let pp = PublicParameters::setup(deg, &mut rng).expect("setup");
+            let mut direct = Composer::initialized();
+            circuit.circuit(&mut direct).unwrap();
+            ctx.out_json("constraints", json!(direct.constraints()));
+            ctx.out_json("key_length", json!(hk::pp_parts(&pp).0.len()));
+            let d = std::panic::catch_unwind(std::panic::AssertUnwindSafe(|| Compiler::compile_with_circuit(&pp, b"cap", &circuit).map(|_| ())));
+            ctx.out_json("direct", json!(match d { Ok(Ok(())) => "Ok".to_string(), Ok(Err(e)) => format!("Err({:?})", e), Err(_) => "PANIC".to_string() }));
+            let compressed = direct.clone().verif_compress(true);
+            let r = std::panic::catch_unwind(std::panic::AssertUnwindSafe(|| Compiler::compile_with_compressed(&pp, b"cap", &compressed).map(|_| ())));
+            ctx.out_json("compressed", json!(match r { Ok(Ok(())) => "Ok".to_string(), Ok(Err(e)) => format!("Err({:?})", e), Err(_) => "PANIC".to_string() }));
+        }
         "trim" => {
             let (deg, n) = (p(1), p(2));
             let mut rng = crate::gadgets::ReplayRng(7);
